@@ -73,6 +73,8 @@ struct side {
     int n_acc, acc[MAXOPS], acc_len[MAXOPS];
     int inflight, inflight_len;
     const unsigned char *inflight_buf;
+    int pending_len;         /* bytestream: bytes offered in a call that said EAGAIN and will be offered again */
+    const unsigned char *pending_buf;
     int n_rcv;
     int64_t bytes_sent_acc, bytes_rcv;
     unsigned char *stream;
@@ -80,6 +82,7 @@ struct side {
     int flushed;             /* xcm_finish returned 0 and nothing was accepted since */
     int graceful;            /* script close after a successful flush */
     int close_disturbed;     /* the environment deviated inside xcm_close */
+    int unexpected;          /* ended although the peer was alive (reported on the spot) */
     int may_block;           /* the script lets this side wait for ever (its peer never reads) */
     int last_rc, last_errno;
     int done;
@@ -402,19 +405,23 @@ static void on_received(struct side *rx, const unsigned char *buf, int rc, int c
             mc_violation(sg("C20/more-than-capacity/%s", dir_to(rx)), "xcm_receive returned %d with capacity %d", rc, cap);
             rc = cap;
         }
-        int64_t limit = tx->bytes_sent_acc + (tx->inflight >= 0 ? tx->inflight_len : 0);
+        /* bytes on offer: in a call in progress, or in a call that was refused with EAGAIN and is being
+           retried with the same bytes.  (That a byte-stream transport may transmit refused bytes early is
+           C02's subject - known for btls - and says nothing about the relay.) */
+        const unsigned char *obuf = tx->inflight >= 0 ? tx->inflight_buf : tx->pending_buf;
+        int olen = tx->inflight >= 0 ? tx->inflight_len : tx->pending_len;
+        int64_t limit = tx->bytes_sent_acc + olen;
         if (off + rc > limit)
             mc_violation(sg("C20/stream-bytes-never-accepted/%s", dir_to(rx)),
-                         "%s received %lld bytes but only %lld were accepted by %s (+%d offered in a call in progress)",
-                         rx->name, (long long)(off + rc), (long long)tx->bytes_sent_acc, tx->name,
-                         tx->inflight >= 0 ? tx->inflight_len : 0);
+                         "%s received %lld bytes but only %lld were accepted by %s (+%d on offer)",
+                         rx->name, (long long)(off + rc), (long long)tx->bytes_sent_acc, tx->name, olen);
         for (int j = 0; j < rc; j++) {
             int64_t pos = off + j;
             unsigned char want;
             if (pos < tx->bytes_sent_acc)
                 want = tx->stream[pos];
-            else if (tx->inflight >= 0 && pos - tx->bytes_sent_acc < tx->inflight_len)
-                want = tx->inflight_buf[pos - tx->bytes_sent_acc];
+            else if (pos - tx->bytes_sent_acc < olen)
+                want = obuf[pos - tx->bytes_sent_acc];
             else
                 break;
             if (buf[j] != want) {
@@ -422,7 +429,7 @@ static void on_received(struct side *rx, const unsigned char *buf, int rc, int c
                 const char *what = "wrong-byte";
                 if (pos + 1 < limit) {
                     int64_t p2 = pos + 1;
-                    unsigned char nx = p2 < tx->bytes_sent_acc ? tx->stream[p2] : tx->inflight_buf[p2 - tx->bytes_sent_acc];
+                    unsigned char nx = p2 < tx->bytes_sent_acc ? tx->stream[p2] : obuf[p2 - tx->bytes_sent_acc];
                     if (buf[j] == nx)
                         what = "bytes-lost";
                 }
@@ -478,10 +485,15 @@ static void on_received(struct side *rx, const unsigned char *buf, int rc, int c
     }
 }
 
-static void on_send_result(struct side *tx, int m, int len, int rc)
+static void on_send_result(struct side *tx, int m, int len, int rc, int err)
 {
     tx->inflight = -1;
     if (g_bytestream) {
+        tx->pending_len = 0;
+        if (rc < 0 && err == EAGAIN) {
+            tx->pending_buf = tx->inflight_buf;
+            tx->pending_len = len;
+        }
         if (rc > 0) {
             if (rc > len)
                 rc = len;
@@ -519,6 +531,7 @@ static void terminal(struct side *x, const char *op, int err)
         return;
     if (p && (p->gave_up || p->closed))
         return;
+    x->unexpected = 1;
     mc_violation(sg("C20/unexpected-termination/%s/%s/at=%s", op, errname(err), role(x)),
                  "%s: %s failed with %s although the peer endpoint is alive (has not closed) and the environment "
                  "injected no fault", x->name, op, errname(err));
@@ -532,6 +545,7 @@ static void saw_eof(struct side *x)
         return;
     if (p && (p->closed || p->gave_up))
         return;
+    x->unexpected = 1;
     mc_violation(sg("C20/eof-without-close/at=%s", role(x)),
                  "%s: xcm_receive returned 0 although %s has not closed its connection", x->name,
                  p ? p->name : "its peer");
@@ -552,7 +566,7 @@ static int do_send(struct side *x, struct op *o)
         x->last_rc = rc;
         x->last_errno = err;
         mc_observe("%s send m%d len=%d -> %d %s", x->name, m, o->len - sent_total, rc, rc < 0 ? errname(err) : "");
-        on_send_result(x, m, o->len - sent_total, rc);
+        on_send_result(x, m, o->len - sent_total, rc, err);
         if (rc >= 0) {
             mc_set_progress(1);
             if (g_bytestream) {
@@ -698,7 +712,7 @@ static int run_loop_style(struct side *x)
             int rc = API("xcm_send", 1, xcm_send(x->s, buf, o->len));
             int err = rc < 0 ? errno : 0;
             mc_observe("%s send m%d len=%d -> %d %s", x->name, o->m, o->len, rc, rc < 0 ? errname(err) : "");
-            on_send_result(x, o->m, o->len, rc);
+            on_send_result(x, o->m, o->len, rc, err);
             if (rc == 0) {
                 si++;
                 progressed = 1;
@@ -1214,7 +1228,11 @@ static void final_checks(enum mc_end end)
             if (more)
                 mc_violation(sg("C20/more-received-than-accepted/%s", dir_to(rx)), "%s obtained %d messages/%lld bytes, %s had %d/%lld accepted",
                              rx->name, rx->n_rcv, (long long)rx->bytes_rcv, tx->name, tx->n_acc, (long long)tx->bytes_sent_acc);
-            if (!(tx->closed && tx->graceful && !tx->close_disturbed && rx->eof_seen && !rx->term_errno) || excused())
+            /* the closer closed in good order, and the other side has seen its connection end - by EOF, or by an
+               error (e.g. the relay closed a back-pressured TLS leg without close_notify) */
+            if (!(tx->closed && tx->graceful && !tx->close_disturbed && !tx->term_errno) || excused())
+                continue;
+            if (!(rx->eof_seen || rx->term_errno) || rx->unexpected)
                 continue;
             /* nothing was under way towards the closer, nothing was sent to it later */
             int reverse_quiet = g_bytestream ? rx->bytes_sent_acc == tx->bytes_rcv : rx->n_acc == tx->n_rcv;
@@ -1238,11 +1256,12 @@ static void final_checks(enum mc_end end)
                     }
                 }
                 char sig[160];
-                snprintf(sig, sizeof sig, "C20/eof-before-all-%s/lost-at=%s/tp=%s", g_bytestream ? "bytes" : "messages", where, tp);
-                mc_violation(sig, "%s had %d sends (%lld bytes) accepted, flushed them (xcm_finish returned 0) and closed; %s saw the "
-                             "close (xcm_receive returned 0) after only %d messages (%lld bytes) [legs %s, %s]; relay:%s",
-                             tx->name, tx->n_acc, (long long)tx->bytes_sent_acc, rx->name, rx->n_rcv,
-                             (long long)rx->bytes_rcv, g_legs,
+                snprintf(sig, sizeof sig, "C20/close-before-all-%s/lost-at=%s/tp=%s", g_bytestream ? "bytes" : "messages", where, tp);
+                mc_violation(sig, "%s had %d sends (%lld bytes) accepted, flushed them (xcm_finish returned 0) and closed; %s saw its "
+                             "connection end (%s%s) after only %d messages (%lld bytes) [legs %s, %s]; relay:%s",
+                             tx->name, tx->n_acc, (long long)tx->bytes_sent_acc, rx->name,
+                             rx->eof_seen ? "xcm_receive returned 0" : "error ", rx->eof_seen ? "" : errname(rx->term_errno),
+                             rx->n_rcv, (long long)rx->bytes_rcv, g_legs,
                              !strcmp(where, "src-leg") ? "the relay never obtained them from the closer's leg" :
                              !strcmp(where, "dst-leg") ? "the relay's xcm_send accepted all of them on the other leg, which it then closed" :
                              "the relay obtained them but did not pass all of them on", rs);
